@@ -112,6 +112,12 @@ def rule_unit_dimensions(ctx):
     ret = [s for s in fn.body if isinstance(s, ast.Return)][0]
     env = {'G_SI': Mono(1.0, {'G_SI': 1})}
     try:
+        for st_ in fn.body:
+            if isinstance(st_, ast.Assign) and len(st_.targets) == 1 and isinstance(st_.targets[0], ast.Name):
+                try:
+                    env[st_.targets[0].id] = mono_eval(st_.value, env)
+                except ValueError:
+                    pass        # not a monomial in the unit tables (e.g. the unpacking of the unit triple)
         g = mono_eval(ret.value, env)
     except ValueError as e:
         raise AnalysisError('R20.1: cannot type convert_G: %s' % e)
@@ -125,8 +131,42 @@ def rule_unit_dimensions(ctx):
         ctx.report('R20.1', 'units:convert_G:order', 'rebound/units.py convert_G', 'the unit triple is not unpacked as (length, time, mass)')
     cu = funcs.get('check_units')
     rets = [s for s in ast.walk(cu) if isinstance(s, ast.Return)]
-    if not rets or ast.unparse(rets[-1].value).replace(' ', '') != '(l_unit,t_unit,m_unit)':
-        ctx.report('R20.1', 'units:check_units:order', 'rebound/units.py check_units', 'check_units does not return (length, time, mass)')
+    def unit_kind_order(fn_):
+        """['L','T','M'] order of the tuple check_units returns, resolved through the tables each element is looked up in;
+        None when the shape is not understood"""
+        rets_ = [s_ for s_ in ast.walk(fn_) if isinstance(s_, ast.Return) and isinstance(s_.value, ast.Tuple)]
+        if not rets_:
+            return None
+        tab = {'lengths_SI': 'L', 'times_SI': 'T', 'masses_SI': 'M'}
+        # (a) names assigned under `if unit in <table>`
+        by_name = {}
+        for x in ast.walk(fn_):
+            if isinstance(x, ast.If) and isinstance(x.test, ast.Compare) and isinstance(x.test.ops[0], ast.In) and isinstance(x.test.comparators[0], ast.Name) \
+                    and x.test.comparators[0].id in tab:
+                for a_ in x.body:
+                    if isinstance(a_, ast.Assign) and isinstance(a_.targets[0], ast.Name):
+                        by_name[a_.targets[0].id] = tab[x.test.comparators[0].id]
+        # (b) a tuple of (key, table) pairs and a dictionary filled under `if unit in table`
+        by_key = {}
+        for x in ast.walk(fn_):
+            if isinstance(x, ast.Tuple) and x.elts and all(isinstance(e_, ast.Tuple) and len(e_.elts) == 2 and isinstance(e_.elts[0], ast.Constant)
+                                                          and isinstance(e_.elts[1], ast.Name) and e_.elts[1].id in tab for e_ in x.elts):
+                for e_ in x.elts:
+                    by_key[e_.elts[0].value] = tab[e_.elts[1].id]
+        order = []
+        for e_ in rets_[-1].value.elts:
+            if isinstance(e_, ast.Name) and e_.id in by_name:
+                order.append(by_name[e_.id])
+            elif isinstance(e_, ast.Subscript) and isinstance(e_.slice, ast.Constant) and e_.slice.value in by_key:
+                order.append(by_key[e_.slice.value])
+            else:
+                return None
+        return order
+    order_ = unit_kind_order(cu)
+    if order_ is None:
+        ctx.note('R20.1: the tuple returned by check_units is built in a way the rule does not resolve; its (length, time, mass) order is not decided')
+    elif order_ != ['L', 'T', 'M']:
+        ctx.report('R20.1', 'units:check_units:order', 'rebound/units.py check_units', 'check_units returns its units in the order %s, not (length, time, mass)' % order_)
     # units_convert_particle applies the converter of the field's dimension with the arguments in the right slots
     fn = funcs['units_convert_particle']
 
@@ -307,7 +347,12 @@ def rule_units_setter(ctx):
     calls = [x for x in ast.walk(fn) if isinstance(x, ast.Call) and pyfront._name(x.func) == 'units_convert_particle']
     n += 1
     if calls:
+        lets_ = {}
+        for st_ in ast.walk(fn):
+            if isinstance(st_, ast.Assign) and len(st_.targets) == 1 and isinstance(st_.targets[0], ast.Name) and isinstance(st_.value, ast.Call):
+                lets_.setdefault(st_.targets[0].id, ast.unparse(st_.value).replace(' ', ''))
         args = [ast.unparse(a).replace(' ', '') for a in calls[0].args]
+        args = [lets_.get(a_, a_) if a_ in lets_ and lets_[a_].startswith('hash_to_unit(') else a_ for a_ in args]
         want = ['p', 'hash_to_unit(self.python_unit_l)', 'hash_to_unit(self.python_unit_t)', 'hash_to_unit(self.python_unit_m)', 'new_l', 'new_t', 'new_m']
         if args != want:
             ctx.report('R20.3', 'setter:convert-args', 'rebound/simulation.py Simulation.convert_particle_units', 'units_convert_particle is called with %s' % args)
